@@ -28,7 +28,7 @@ using namespace sim;
 
 namespace {
 
-const char *k_tmpl[] = {"harm_fixed", "harm_cmove", "harm_kmove", "walls_fixed", "linear_fixed", "meta_grid", "abf", "histogram", "harm_cmove", "harm_fixed"};
+const char *k_tmpl[] = {"harm_fixed", "harm_cmove", "harm_kmove", "walls_fixed", "linear_fixed", "meta_grid", "abf", "histogram", "harm_cmove", "harm_fixed", "harm_cstage"};
 
 struct CvOut { std::string name; bool periodic = false; bool vel = false, ft = false, fa = false; bool runave = false; int ra_len = 0, ra_stride = 1; bool cf = false, cf_norm = false; int cf_len = 0, cf_stride = 1; std::string cf_with; };
 
@@ -88,19 +88,18 @@ J gen(uint64_t seed, bool thorough) {
     for (;;) {
       t = k_tmpl[r.below(sizeof k_tmpl / sizeof *k_tmpl)];
       int k = std::min<int>(ncv, std::min(2, bias_template_max_cv(t)));
-      if (t == "abf" || t == "harm_cmove") k = 1;
+      if (t == "abf" || t == "harm_cmove" || t == "harm_cstage") k = 1;
       k = (int)r.range(1, k);
       std::vector<size_t> idx; for (size_t q = 0; q < cvs.size(); q++) idx.push_back(q);
       for (size_t q = idx.size() - 1; q > 0; q--) std::swap(idx[q], idx[r.below(q + 1)]);
       idx.resize((size_t)k);
       bool per = false; for (size_t q : idx) per = per || cvs[q].periodic();
-      if (per && (t.rfind("linear", 0) == 0 || t.rfind("walls", 0) == 0 || t == "harm_cmove")) continue;
+      if (per && (t.rfind("linear", 0) == 0 || t.rfind("walls", 0) == 0 || t == "harm_cmove" || t == "harm_cstage")) continue;
       std::vector<CvSpec> sub; std::vector<std::pair<double, double>> rg;
       for (size_t q : idx) { sub.push_back(cvs[q]); rg.push_back(ranges[q]); }
       std::string cfg = make_bias(t, r, sub, rg, T, name).config; size_t p;
       while ((p = cfg.find("  writeTI")) != std::string::npos) cfg.erase(p, cfg.find('\n', p) - p + 1);
       if ((p = cfg.find("  timeStepFactor")) != std::string::npos) cfg.erase(p, cfg.find('\n', p) - p + 1);
-      if (t == "harm_cmove" && cfg.find("targetNumStages") != std::string::npos) continue;
       op["name"] = name; op["tmpl"] = t; op["config"] = cfg; op["w"] = 0;
       J cv = J::arr(); for (size_t q : idx) cv.push(cvs[q].name); op["cvs"] = cv;
       sig += "B";
@@ -198,10 +197,17 @@ RunResult run(J const &plan) {
           if (bi.config.find("outputCenters on") != std::string::npos) {
             // the documented schedule: centres move linearly from `centers` to `targetCenters` over targetNumSteps steps, counted from the step the bias was defined at
             double c0 = cfgnum(bi.config, "centers"), c1 = cfgnum(bi.config, "targetCenters", c0); long N = (long)cfgnum(bi.config, "targetNumSteps", 0);
+            long S = (long)cfgnum(bi.config, "targetNumStages", 0);
             double lam = N > 0 ? std::min(1.0, std::max(0.0, (double)(step - bi.defined_at) / (double)N)) : 0.0;
-            double c = bi.tmpl == "harm_cmove" ? c0 + lam * (c1 - c0) : c0;
+            if (S > 0 && N > 0) {
+              // staged: the centres stand still for targetNumSteps steps, then jump to the next of targetNumStages equally spaced positions
+              long t = step - bi.defined_at, m = t >= 1 ? (t - 1) / N + 1 : 0, st = std::max(0L, std::min(m, S + 1) - 1);
+              lam = (double)st / (double)S;
+            }
+            double c = (bi.tmpl == "harm_cmove" || bi.tmpl == "harm_cstage") ? c0 + lam * (c1 - c0) : c0;
             for (auto const &cvn : bi.cvs) { row.col["x0_" + cvn + "@" + b->name] = c; row.order.push_back("x0_" + cvn); }
-            if (bi.tmpl == "harm_cmove" && bi.config.find("outputAccumulatedWork on") != std::string::npos) {
+            if (bi.tmpl == "harm_cmove" && S > 0 && bi.config.find("outputAccumulatedWork on") != std::string::npos) { row.order.push_back("W_" + b->name); row.col["W_" + b->name] = NAN; }
+            else if (bi.tmpl == "harm_cmove" && bi.config.find("outputAccumulatedWork on") != std::string::npos) {
               double K = cfgnum(bi.config, "forceConstant"), w = 1.0; for (colvar *cv : *ep->colvars->variables()) if (cv->name == bi.cvs[0]) w = cv->width;
               double x = row.col[bi.cvs[0]];
               if (bi.have_prev && !row.repeated && !row.first_of_instance && step - bi.defined_at <= N) bi.work += (-K / (w * w) * (x - c)) * (c - bi.prev_c);
